@@ -36,6 +36,15 @@ VARIANTS = [
         dict(file=GRO, old="line = formatter.format(format_string, resid, resname, atomname,", new="line = formatter.format(format_string, resid, atomname, resname,")]),
     dict(name='gro-vel-width', expect='fire', key='FMT-layout|gro|vel-width', edits=[
         dict(file=GRO, old="vel_format_string = vel_format_string.format(ntx=precision+1)", new="vel_format_string = vel_format_string.format(ntx=precision+2)")]),
+    dict(name='conect-reader-split (seed C16_a)', expect='fire', key='FMT-serial|CONECT-reader-fixed', edits=[
+        dict(file=PDB, old="            start = 6\n            width = 5\n            atids = []\n            for num in range(start, len(line.rstrip()), width):\n                atom = int(line[num:num + width])\n                atids.append(atom)\n",
+             new="            atids = [int(atom) for atom in line[6:].split()]\n")]),
+    dict(name='trunc-align-inference-broken (seed C16_b)', expect='fire', key='FMT-truncation-code', edits=[
+        dict(file='vermouth/truncating_formatter.py', old="            elif spec.type in 'bcdoxXn' or spec.type in 'eEfFgGn%':", new="            elif spec.type in ('bcdoxXn', 'eEfFgGn%'):")]),
+    dict(name='trunc-off-by-one', expect='fire', key='FMT-truncation-code', edits=[
+        dict(file='vermouth/truncating_formatter.py', old="        overflow = len(result) - spec.width\n", new="        overflow = len(result) - spec.width - 1\n")]),
+    dict(name='reader-xyz-free-format (seed C11_b)', expect='fire', key='FMT-layout|ATOM', edits=[
+        dict(file=PDB, old="            ('x', float, 8),\n            ('y', float, 8),\n            ('z', float, 8),\n", new="            ('xyz', str, 24),\n")]),
     # behaviour-preserving edits: must stay silent
     dict(name='benign-rename-local', expect='silent', edits=[
         dict(file=PDB, old="            line = formatter.format(format_string, atomid, atomname, altloc,\n                                    resname, chain, resid, insertion_code, x,\n                                    y, z, occupancy, temp_factor, element,\n                                    charge)\n            atomid += 1\n            out.append(line)",
